@@ -4,6 +4,7 @@ package interp
 
 import (
 	"fmt"
+	"os"
 	"math/big"
 	"regexp"
 	"sort"
@@ -12,6 +13,8 @@ import (
 
 // engineFault: the engine cannot continue soundly (unsupported construct,
 // internal error). The whole check becomes INCONCLUSIVE.
+var checkRange = os.Getenv("GOSYM_CHECK_RANGE") != ""
+
 type engineFault struct{ msg string }
 
 func (e engineFault) Error() string { return e.msg }
@@ -93,6 +96,7 @@ type pathCtx struct {
 	ufCalls     map[string][]ufCall
 	ghost       map[string]value // harness-visible per-path scratch
 	known       map[int]bool     // term id -> truth value already implied by the path condition
+	rlo, rhi    map[int]*big.Int // learned unsigned bounds of bit-vector terms
 	expectPanic []*regexp.Regexp
 	sizes       map[string]int
 }
@@ -161,6 +165,7 @@ func (pc *pathCtx) addConstraint(c *Term) {
 	}
 	pc.pcs = append(pc.pcs, c)
 	pc.solver.Assert(c)
+	pc.learn(c, true)
 	if pc.model != nil && pc.evalBool(c) {
 		return
 	}
@@ -206,6 +211,20 @@ func (pc *pathCtx) branch(cond *Term) bool {
 	if kv, ok := pc.known[cond.id]; ok {
 		return kv
 	}
+	if r := pc.decideByRange(cond); r >= 0 {
+		if checkRange {
+			other := cond
+			if r == 0 {
+				other = cond
+			} else {
+				other = pc.st.Not(cond)
+			}
+			if res, _ := pc.checkSat(other); res == "sat" {
+				panic(engineFault{"interval reasoning unsound for " + cond.String()})
+			}
+		}
+		return r == 1
+	}
 	if pc.pos < len(pc.prefix) {
 		d := pc.prefix[pc.pos]
 		side := d.C == 1
@@ -249,12 +268,203 @@ func (pc *pathCtx) branch(cond *Term) bool {
 	return side
 }
 
+func (pc *pathCtx) setLo(t *Term, v *big.Int) {
+	if pc.rlo == nil {
+		pc.rlo, pc.rhi = make(map[int]*big.Int), make(map[int]*big.Int)
+	}
+	if old, ok := pc.rlo[t.id]; !ok || old.Cmp(v) < 0 {
+		pc.rlo[t.id] = v
+	}
+}
+func (pc *pathCtx) setHi(t *Term, v *big.Int) {
+	if pc.rlo == nil {
+		pc.rlo, pc.rhi = make(map[int]*big.Int), make(map[int]*big.Int)
+	}
+	if v.Sign() < 0 {
+		v = new(big.Int)
+	}
+	if old, ok := pc.rhi[t.id]; !ok || old.Cmp(v) > 0 {
+		pc.rhi[t.id] = v
+	}
+}
+
+// learnBounds extracts unsigned bounds from comparisons with constants.
+func (pc *pathCtx) learnBounds(cond *Term, side bool) {
+	if len(cond.args) != 2 {
+		return
+	}
+	a, b := cond.args[0], cond.args[1]
+	one := bigOne
+	switch cond.op {
+	case OpULt:
+		if b.op == OpConst { // a < c
+			if side {
+				pc.setHi(a, new(big.Int).Sub(b.val, one))
+			} else {
+				pc.setLo(a, b.val)
+			}
+		} else if a.op == OpConst { // c < b
+			if side {
+				pc.setLo(b, new(big.Int).Add(a.val, one))
+			} else {
+				pc.setHi(b, a.val)
+			}
+		}
+	case OpULe:
+		if b.op == OpConst { // a <= c
+			if side {
+				pc.setHi(a, b.val)
+			} else {
+				pc.setLo(a, new(big.Int).Add(b.val, one))
+			}
+		} else if a.op == OpConst { // c <= b
+			if side {
+				pc.setLo(b, a.val)
+			} else {
+				pc.setHi(b, new(big.Int).Sub(a.val, one))
+			}
+		}
+	case OpEq:
+		if side && a.sort > 0 {
+			if b.op == OpConst {
+				pc.setLo(a, b.val)
+				pc.setHi(a, b.val)
+			} else if a.op == OpConst {
+				pc.setLo(b, a.val)
+				pc.setHi(b, a.val)
+			}
+		}
+	}
+}
+
+// urange returns sound unsigned bounds of a bit-vector term under the path condition.
+func (pc *pathCtx) urange(t *Term, depth int) (*big.Int, *big.Int) {
+	if t.op == OpConst {
+		return t.val, t.val
+	}
+	lo, hi := bigZero, maskOf(t.sort)
+	if depth < 12 {
+		switch t.op {
+		case OpZExt:
+			lo, hi = pc.urange(t.args[0], depth+1)
+		case OpExtract:
+			alo, ahi := pc.urange(t.args[0], depth+1)
+			if t.p1 == t.args[0].sort-1 { // top bits: a >> p2
+				lo, hi = new(big.Int).Rsh(alo, uint(t.p2)), new(big.Int).Rsh(ahi, uint(t.p2))
+			} else if t.p2 == 0 && ahi.BitLen() <= t.p1+1 { // low bits, value fits
+				lo, hi = alo, ahi
+			}
+		case OpAnd:
+			if t.args[1].op == OpConst {
+				_, ahi := pc.urange(t.args[0], depth+1)
+				hi = t.args[1].val
+				if ahi.Cmp(hi) < 0 {
+					hi = ahi
+				}
+			}
+		case OpOr:
+			if t.args[1].op == OpConst {
+				alo, ahi := pc.urange(t.args[0], depth+1)
+				c := t.args[1].val
+				// a|c >= max(a, c); a|c <= a + c
+				lo = alo
+				if c.Cmp(lo) > 0 {
+					lo = c
+				}
+				s := new(big.Int).Add(ahi, c)
+				if s.Cmp(hi) < 0 {
+					hi = s
+				}
+			}
+		case OpAdd:
+			if t.args[1].op == OpConst {
+				alo, ahi := pc.urange(t.args[0], depth+1)
+				c := t.args[1].val
+				s := new(big.Int).Add(ahi, c)
+				if s.Cmp(maskOf(t.sort)) <= 0 {
+					lo, hi = new(big.Int).Add(alo, c), s
+				}
+			}
+		case OpIte:
+			l1, h1 := pc.urange(t.args[1], depth+1)
+			l2, h2 := pc.urange(t.args[2], depth+1)
+			lo, hi = l1, h1
+			if l2.Cmp(lo) < 0 {
+				lo = l2
+			}
+			if h2.Cmp(hi) > 0 {
+				hi = h2
+			}
+		case OpConcat:
+			if t.args[0].op == OpConst && t.args[0].val.Sign() == 0 {
+				lo, hi = pc.urange(t.args[1], depth+1)
+			}
+		}
+	}
+	if pc.rlo != nil {
+		if v, ok := pc.rlo[t.id]; ok && v.Cmp(lo) > 0 {
+			lo = v
+		}
+		if v, ok := pc.rhi[t.id]; ok && v.Cmp(hi) < 0 {
+			hi = v
+		}
+	}
+	return lo, hi
+}
+
+// decideByRange tries to decide a comparison from learned bounds: 1 true, 0 false, -1 unknown.
+func (pc *pathCtx) decideByRange(cond *Term) int {
+	switch cond.op {
+	case OpBNot:
+		r := pc.decideByRange(cond.args[0])
+		if r < 0 {
+			return r
+		}
+		return 1 - r
+	case OpULt, OpULe, OpEq:
+		a, b := cond.args[0], cond.args[1]
+		if a.sort <= 0 {
+			return -1
+		}
+		if a.op != OpConst && b.op != OpConst {
+			return -1
+		}
+		alo, ahi := pc.urange(a, 0)
+		blo, bhi := pc.urange(b, 0)
+		switch cond.op {
+		case OpULt:
+			if ahi.Cmp(blo) < 0 {
+				return 1
+			}
+			if alo.Cmp(bhi) >= 0 {
+				return 0
+			}
+		case OpULe:
+			if ahi.Cmp(blo) <= 0 {
+				return 1
+			}
+			if alo.Cmp(bhi) > 0 {
+				return 0
+			}
+		case OpEq:
+			if ahi.Cmp(blo) < 0 || bhi.Cmp(alo) < 0 {
+				return 0
+			}
+			if alo.Cmp(ahi) == 0 && blo.Cmp(bhi) == 0 && alo.Cmp(blo) == 0 {
+				return 1
+			}
+		}
+	}
+	return -1
+}
+
 // learn records literals implied by taking `side` of cond.
 func (pc *pathCtx) learn(cond *Term, side bool) {
 	if pc.known == nil {
 		pc.known = make(map[int]bool)
 	}
 	pc.known[cond.id] = side
+	pc.learnBounds(cond, side)
 	if cond.op == OpBNot {
 		pc.learn(cond.args[0], !side)
 		return
